@@ -93,11 +93,23 @@ def impl_vals(c):
     """numbers only: returned as floats (signomials) or exact fractions (polynomials)"""
     from sageopt.symbolic.polynomials import Polynomial
     f = st.build(c['t'])
+
+    def warm(x):
+        """the same object is first asked for everything at ANOTHER point, held in the very array that is then updated in place
+        (the way an iterative method walks): whatever the object remembers of earlier calls must not show in later ones"""
+        xw = x + 1.0
+        for fn in (f, f.grad_val, f.hess_val):
+            try:
+                fn(xw)
+            except Exception:  # noqa: BLE001
+                pass
+        xw[:] = x
+        return xw
     if isinstance(f, Polynomial):
-        x = np.array([float(F(v)) for v in c['x']])
+        x = warm(np.array([float(F(v)) for v in c['x']]))
         H = f.hess_val(x)
         return {'val': st.fr(f(x)), 'grad': [st.fr(v) for v in f.grad_val(x)], 'hess': [[st.fr(v) for v in row] for row in H.tolist()]}
-    x = LN4 * np.array([float(v) for v in c['k']])
+    x = warm(LN4 * np.array([float(v) for v in c['k']]))
     out = {'val': float(f(x)), 'grad': [float(v) for v in f.grad_val(x)],
            'grad_sym': [float(g(x)) for g in f.grad],
            'hess_sym': [[float(f.hess[i, j](x)) for j in range(f.n)] for i in range(f.n)]}
